@@ -90,7 +90,10 @@ func keys(t *rapid.T, minN, maxN int, wide bool) [][]byte {
 			// the embedded API has no key limit of its own (4096 is the service's):
 			// the log lets a key span fragments, the table format stores key
 			// lengths in 16 bits. One key longer than a physical log record.
-			k := bytes.Repeat([]byte{'y'}, rapid.SampledFrom([]int{32756, 32769, 40000, 65000}).Draw(t, "longkeylen"))
+			// around the largest key whose delete (13 + key bytes) or empty-valued put
+			// (17 + key bytes) still fits ONE record of 32768 bytes, or well beyond it
+			kl := rapid.OneOf(rapid.IntRange(32747, 32758), rapid.IntRange(32747, 32758), rapid.SampledFrom([]int{32769, 40000, 65000})).Draw(t, "longkeylen")
+			k := bytes.Repeat([]byte{'y'}, kl)
 			if !seen[string(k)] {
 				seen[string(k)] = true
 				out = append(out, k)
